@@ -658,6 +658,62 @@ impl<'a> Printer<'a> {
         }
     }
 
+    /// The program as one block whose first `k` lets of main are `that` contributions, all
+    /// contributions (type declarations included) printed in the order `perm` (a permutation of
+    /// 0..ndecls+k, declaration indices first).
+    pub fn program_as_block(&mut self, k: usize, perm: &[usize]) {
+        let nd = self.prog.datas.len() + self.prog.codatas.len();
+        // render declarations separately
+        let saved = std::mem::take(&mut self.out);
+        self.decls();
+        let decl_tokens = std::mem::take(&mut self.out);
+        let mut decl_chunks: Vec<Vec<String>> = vec![];
+        let mut cur = vec![];
+        for t in decl_tokens {
+            let nl = t == "\n";
+            cur.push(t);
+            if nl {
+                decl_chunks.push(std::mem::take(&mut cur));
+            }
+        }
+        assert_eq!(decl_chunks.len(), nd, "one chunk per declaration");
+        // peel k lets
+        let mut lets = vec![];
+        let mut body = self.prog.main.clone();
+        for _ in 0..k {
+            let Comp::Let(p, a, v, n) = body else { panic!("harness: block program with fewer lets than promised") };
+            lets.push((p, a, v));
+            body = *n;
+        }
+        self.out = saved;
+        self.p("begin");
+        self.p("\n");
+        for i in perm {
+            if *i < nd {
+                let chunk = decl_chunks[*i].clone();
+                self.out.extend(chunk);
+            } else {
+                let (p, a, v) = lets[*i - nd].clone();
+                self.p(if self.style.def_values { "def" } else { "let" });
+                self.pat(&p);
+                self.p(":");
+                self.vty(&a, 5);
+                self.p("=");
+                self.val(&v, &a);
+                self.p("that");
+                self.p("\n");
+            }
+        }
+        self.p("(");
+        self.comp(&body, &CTy::OS);
+        self.p(":");
+        self.p("OS");
+        self.p(")");
+        self.p("\n");
+        self.p("end");
+        self.p("\n");
+    }
+
     /// The body after the prelude.
     pub fn program(&mut self) {
         self.p("begin");
